@@ -184,15 +184,19 @@ func (w *auWorld) frame(k int, typ uint8, svc, obj, act uint32, payload []byte) 
 		return "closed-without-answer" + suffix()
 	}
 	ignored := typ == qnet.Reply || typ == qnet.Error || typ == qnet.Event || typ == qnet.Cancelled
+	if svc == 0 && obj == 0 && typ != qnet.Call && typ != qnet.Post && typ >= 1 && typ <= 8 {
+		ignored = true // service 0 runs nothing for it and says nothing
+	}
 	sentinel := uint32(0)
 	if ignored {
-		// nothing is expected back: a frame for service 0 / unknown object is always answered in order
+		// nothing is expected back: a call of an unknown action of service 0 goes the same way
+		// (connection goroutine, then the mailbox of service 0) and is always answered, in order
 		w.nextID++
 		sentinel = w.nextID
-		sh := qnet.Header{Magic: 0x42dead42, ID: sentinel, Type: qnet.Call, Service: 0, Object: 0xFFFF, Action: 0}
+		sh := qnet.Header{Magic: 0x42dead42, ID: sentinel, Type: qnet.Call, Service: 0, Object: 0, Action: 0}
 		if !w.write(c, qnet.NewMessage(sh, nil)) {
 			c.dead = true
-			return "dead" + suffix()
+			return "closed-without-answer" + suffix()
 		}
 	}
 	deadline := time.After(3 * time.Second)
